@@ -106,6 +106,8 @@ def diverging_sites(F, fns):
                 # one class for `v[i]` whether the container is a Vec (Index::index call) or a slice/array (a MIR
                 # bounds assertion): the same failure, whichever type a refactoring gives the parameter
                 it = type_head(c.targs[1] if len(c.targs) > 1 else "")
+                if "Range" in it and range_slice_in_bounds(F, root, c.line):
+                    continue    # locally discharged: v[a..b] with b = max(v.len(), a) and v padded up to b
                 yield dict(kind="index", msg="", ctx="[range]" if "Range" in it else "[%s]" % it, fn=f, file=c.file, line=c.line)
             elif STD_PANICKERS.match(p) and not c.macros:
                 # keyed by the file, like panics: the receiver is often a private type that may be renamed
@@ -127,6 +129,55 @@ def diverging_sites(F, fns):
                 if const_nonzero:
                     continue
                 yield dict(kind="assert:" + t["msg"], msg="", ctx=owner_of(F, f), fn=f, file=t.get("file"), line=t.get("line"))
+
+
+def range_slice_in_bounds(F, gid, line):
+    """`v[a..b]` cannot panic when b was computed as max(v.len(), a) for the same v and a, v is extended over
+    (v.len()..b) before the slice is taken, and nothing shortens v in the function: then a <= b <= v.len()."""
+    tree = F.hir.get(gid)
+    if tree is None:
+        return False
+    lets = {n["pat"].get("lid"): n["init"] for n in walk(tree["body"]) if n["k"] == "LetStmt" and n["pat"]["k"] == "P.Binding" and n.get("init") is not None}
+    def lid(e):
+        while isinstance(e, dict) and e.get("k") in ("AddrOf", "Deref", "DropTemps"):
+            e = e["e"]
+        return e.get("lid") if isinstance(e, dict) and e.get("k") == "Path" and e.get("res") == "local" else None
+    def len_of(e):
+        while isinstance(e, dict) and e.get("k") in ("AddrOf", "Deref", "DropTemps"):
+            e = e["e"]
+        return lid(e["recv"]) if isinstance(e, dict) and e.get("k") == "MethodCall" and e.get("method") == "len" else None
+    idx = [n for n in walk(tree["body"]) if n["k"] == "Index" and n.get("line") == line and n["i"].get("k") == "Struct" and "Range" in (n["i"].get("def") or "")]
+    if not idx:
+        return False
+    for n in idx:
+        v = lid(n["e"])
+        fl = {x.get("name"): x.get("e") for x in n["i"].get("fields", [])}
+        a, b = lid(fl.get("start")), lid(fl.get("end"))
+        if v is None or a is None or b is None or b not in lets:
+            return False
+        init = lets[b]
+        ok_max = False
+        if init.get("k") == "Call" and (init.get("callee") or "").endswith("cmp::max") and len(init["args"]) == 2:
+            xs = init["args"]
+            ok_max = (len_of(xs[0]) == v and lid(xs[1]) == a) or (len_of(xs[1]) == v and lid(xs[0]) == a)
+        if init.get("k") == "MethodCall" and init.get("method") == "max" and init.get("args"):
+            ok_max = (len_of(init["recv"]) == v and lid(init["args"][0]) == a) or (lid(init["recv"]) == a and len_of(init["args"][0]) == v)
+        if not ok_max:
+            return False
+        padded = False
+        for x in walk(tree["body"]):
+            if x["k"] == "MethodCall" and lid(x.get("recv")) == v:
+                if x.get("method") in ("truncate", "pop", "clear", "drain", "remove", "swap_remove", "retain", "split_off"):
+                    return False
+                if x.get("method") == "extend" and x.get("args") and (x.get("line") or 0) < line:
+                    rng = next((s_ for s_ in walk(x["args"][0]) if s_["k"] == "Struct" and "Range" in (s_.get("def") or "")), None)
+                    if rng is not None and not any(y["k"] == "MethodCall" and y.get("method") in ("filter", "filter_map", "skip", "take", "step_by", "take_while", "skip_while", "flat_map") for y in walk(x["args"][0])):
+                        f2 = {y.get("name"): y.get("e") for y in rng.get("fields", [])}
+                        if len_of(f2.get("start")) == v and lid(f2.get("end")) == b:
+                            padded = True
+        if not padded:
+            return False
+    return True
 
 
 def owner_of(F, f):
@@ -1018,15 +1069,21 @@ def anyof_nonempty(cx, rep, F):
                 if ct is None:
                     continue
                 ms = [m for m in walk(ct["body"]) if m["k"] == "Match" and m.get("src") == "Normal"]
-                if len(ms) != 1:
+                ifs = [m for m in walk(ct["body"]) if m["k"] == "If"]
+                if len(ms) == 1 and not ifs:
+                    branches = [(arm["body"], arm["line"]) for arm in ms[0]["arms"]]
+                elif len(ifs) == 1 and not ms:
+                    # `if let Nested(x) = it.kind { recurse } else { insert }`: two branches; no else = a dropping path
+                    branches = [(ifs[0]["then"], ifs[0]["line"])] + ([(ifs[0]["else"], ifs[0]["line"])] if ifs[0].get("else") else [({"k": "Unit"}, ifs[0]["line"])])
+                else:
                     why = "merger %s has no single dispatch over its elements" % cg
                     continue
                 bad = []
-                for arm in ms[0]["arms"]:
-                    inserts = any(x["k"] == "MethodCall" and x["method"] == "insert" for x in walk(arm["body"]))
-                    recurses = any(x["k"] == "MethodCall" and x.get("callee") == cg for x in walk(arm["body"])) or any(x["k"] == "Call" and x.get("callee") == cg for x in walk(arm["body"]))
+                for bbody, bline in branches:
+                    inserts = any(x["k"] == "MethodCall" and x["method"] == "insert" for x in walk(bbody))
+                    recurses = any(x["k"] == "MethodCall" and x.get("callee") == cg for x in walk(bbody)) or any(x["k"] == "Call" and x.get("callee") == cg for x in walk(bbody))
                     if not inserts and not recurses:
-                        bad.append(arm["line"])
+                        bad.append(bline)
                 ok = not bad
                 why = "every arm of %s inserts or recurses" % cg.rsplit("::", 1)[-1] if ok else "an arm of %s (line %s) drops its element: a union whose members are all dropped becomes AnyOf(empty), which print_runtype answers with panic!(\"empty anyOf is not allowed\")" % (cg, bad)
             # callers hand over at least two members
@@ -1415,6 +1472,14 @@ def counted_index_sites(F, select):
                 k = vec_key(x["recv"])
                 if k:
                     pads.append((k, None, strip(x["args"][0])))
+            # v.extend((a..b).map(|_| x)) / v.extend(repeat(x).take(b - a)): one element per index of the range
+            if x["k"] == "MethodCall" and x["method"] == "extend" and x["args"]:
+                k = vec_key(x["recv"])
+                rng = next((s_ for s_ in walk(x["args"][0]) if s_["k"] == "Struct" and "Range" in (s_.get("ty") or s_.get("def") or "")), None)
+                if k and rng is not None and not any(y["k"] == "MethodCall" and y.get("method") in ("filter", "filter_map", "skip", "take", "step_by", "take_while", "skip_while", "flat_map") for y in walk(x["args"][0])):
+                    fl = {y.get("name"): (y.get("e") or y.get("expr")) for y in rng.get("fields", [])}
+                    if fl.get("start") is not None and fl.get("end") is not None:
+                        pads.append((k, strip(fl["start"]), strip(fl["end"])))
         for m, st_, en_, ivar in loops:
             if st_ is None or en_ is None or ivar is None:
                 continue
